@@ -68,6 +68,7 @@ type hist struct {
 	prev           []outcome // outcomes of probes after the previous step
 	ops            []opRec
 	maxLitSiblings int
+	emptied []string // patterns that lost their last method through Remove(pattern, methods...)
 }
 
 func (h *hist) detail(extra map[string]any) map[string]any {
@@ -346,6 +347,11 @@ func indexOf(xs []string, x string) int {
 func (h *hist) checkAllow() {
 	c, s := h.c, h.s
 	routes := s.R.Routes()
+	c.Eval()
+	if msg := s.CompareRoutes(); msg != "" { // Routes() is one of the views: it must list exactly the live patterns
+		h.violate(msg, nil)
+		return
+	}
 	for _, p := range s.LivePatterns() {
 		w, _ := Witness(s.Live[p].Pat, indexOf(h.pool, p))
 		for _, m := range []string{"OPTIONS", "BOGUS"} {
@@ -560,7 +566,11 @@ func (h *hist) step() (kind string, touched []string, rejected bool) {
 			if r.Bool() {
 				ms = []string{"GET", "POST", "GET"}
 			}
-		case 3: // a twin (names differ only)
+		case 3: // a twin (names differ only) of a live pattern, or of one whose methods were removed one by one (its node may survive)
+			if len(h.emptied) > 0 && r.Bool() {
+				p = ref.Pick(r, h.emptied)
+				h.c.Class("twin_of_pattern_emptied_by_method_removal")
+			}
 			p = twinOf(r, p)
 			ms = randomMethods(r, s)
 		}
@@ -612,7 +622,13 @@ func (h *hist) step() (kind string, touched []string, rejected bool) {
 	case x < 45+handleBad+30:
 		p := pick()
 		var ms []string
-		for k := r.Range(1, 3); k > 0; k-- {
+		if e := s.Live[p]; e != nil && r.Chance(1, 4) {
+			for m := range e.M { // exactly the live methods: the pattern dies, its node may stay as a prefix of others
+				ms = append(ms, m)
+			}
+			sort.Strings(ms)
+		}
+		for k := r.Range(1, 3); k > 0 && len(ms) == 0; k-- {
 			switch r.Intn(6) {
 			case 0:
 				ms = append(ms, ref.Pick(r, badMethods))
@@ -632,7 +648,11 @@ func (h *hist) step() (kind string, touched []string, rejected bool) {
 			}
 		}
 		via := randomVia(r, p)
+		wasLive := s.Live[p] != nil
 		t := s.Remove(p, via, ms...)
+		if wasLive && s.Live[p] == nil {
+			h.emptied = append(h.emptied, p)
+		}
 		h.ops = append(h.ops, opRec{Op: "Remove", Pattern: p, Methods: ms, Via: via.String()})
 		return "remove", append(t, p), false
 	case x < 45+handleBad+33:
